@@ -681,7 +681,9 @@ class RTCDtlsTransport(AsyncIOEventEmitter):
                 else:
                     data = self._rx_srtp.unprotect(data)
                     await self._handle_rtp_data(data, arrival_time_ms=arrival_time_ms)
-            except pylibsrtp.Error as exc:
+            except (pylibsrtp.Error, ValueError) as exc:
+                # (pylibsrtp refuses a datagram which does not fit its buffer
+                # with a ValueError)
                 self.__log_debug("x SRTP unprotect failed: %s", exc)
 
     def _register_data_receiver(self, receiver: DataReceiver) -> None:
